@@ -1,7 +1,7 @@
 (* Proofs/Xonsh.v — the xonsh quoting after the repair: a value that needs quoting becomes an
    ordinary Python literal '...' with every backslash and single quote escaped; it reads back
    (Spec/Readers.v read_xonsh_sp) as exactly the value. *)
-From CV Require Import Base.Str Model.Common Spec.Readers.
+From CV Require Import Base.Str Gen.Tables Model.Common Model.Shells Spec.Readers.
 Local Open Scope nat_scope.
 
 Definition py_escape (v : str) : str :=
@@ -42,4 +42,22 @@ Lemma replace1_py_escape t v : py_table_ok t = true -> replace1 t v = py_escape 
 Proof.
   intro H. unfold replace1, py_escape. apply flat_map_ext. intro c.
   pose proof (forall_bytes _ H c) as E. cbv beta in E. apply str_eqb_true in E. exact E.
+Qed.
+
+Lemma xonsh_tables_ok : py_table_ok xonsh_quoter = true /\ mem c_lf (keys xonsh_sanitizer) = true /\ drops xonsh_sanitizer = true.
+Proof. repeat split; vm_compute; reflexivity. Qed.
+
+(* the model's quoting (sanitise, then quote) read back: a quoted value reads back as the sanitised
+   value; an unquoted one is a bare subprocess word, for which there is no reader *)
+Theorem xonsh_roundtrip v (blank : bool) :
+  let val := replace1 xonsh_sanitizer v in
+  read_xonsh_sp (xonsh_quote v ++ (if blank then [c_sp] else [])) =
+    if contains_any val xonsh_ActionRawValues_any1 then Reads (Some (val, blank))
+    else read_xonsh_sp (val ++ (if blank then [c_sp] else [])).
+Proof.
+  cbv zeta. destruct xonsh_tables_ok as (Hq & Hk & Hd).
+  assert (Hlf : ~ In c_lf (replace1 xonsh_sanitizer v)) by (apply replace1_drops_notin; [exact Hd|apply mem_In; exact Hk]).
+  pose proof (xonsh_fixed_roundtrip xonsh_ActionRawValues_any1 (replace1 xonsh_sanitizer v) blank Hlf) as H.
+  unfold xonsh_quote_fixed in H. unfold xonsh_quote. rewrite (replace1_py_escape _ _ Hq).
+  change (B [39]) with [c_sq]. destruct (contains_any _ _); exact H.
 Qed.
